@@ -13,8 +13,11 @@ def renderStep (r : RecvR) (c : Ctl) : String :=
 def runSteps : Nat → Ctl → Net → List String → List String × Net
   | 0, _, net, acc => (acc.reverse, net)
   | n + 1, c, net, acc =>
-    let (r, c', net') := recv c net
-    runSteps n c' net' (renderStep r c' :: acc)
+    -- after a 421 reply the connection is closed: a further receive step fails on the closed socket
+    if c.closed then runSteps n c net (renderStep .error c :: acc)
+    else
+      let (r, c', net') := recv c net
+      runSteps n c' net' (renderStep r c' :: acc)
 
 /-- `recv n fin chunks => steps | reads sizes | atend k` -/
 def ctlOp (op : String) (args : List String) (impl : String) : Option Verdict :=
